@@ -10,6 +10,7 @@ use serde_json::Value;
 use serde_json::json;
 
 mod merge_props;
+mod refs_props;
 
 fn main() {
     let prop = std::env::args().nth(1).expect("property");
@@ -25,6 +26,7 @@ fn main() {
         let res = catch_unwind(AssertUnwindSafe(|| match prop.as_str() {
             "c01" => merge_props::c01(&case),
             "c02" => merge_props::c02(&case),
+            "c12" => refs_props::c12(&case),
             _ => json!({"error": format!("unknown property {prop}")}),
         }));
         let out = match res {
